@@ -4,9 +4,9 @@ META = dict(
     explanation="Function-level pieces: the streaming-filter pusher closure of Run and the two item-builder closures of Run are lifted verbatim from the "
                 "current source (free variables become fields of an environment struct) and executed on symbolic records: what is printed must be the "
                 "original record; Item.AsString must give back the input bytes, also under --with-nth.",
-    functions=["Run: streaming filter pusher (lifted)", "Run: item builder (lifted)", "Run: --with-nth item builder (lifted)", "fzf.(*Item).AsString", "fzf.(*Pattern).MatchItem",
+    functions=["Run: streaming filter pusher (lifted)", "Run: item builder (lifted)", "Run: --with-nth item builder (lifted)", "fzf.(*Item).AsString", "fzf.(*Terminal).output", "fzf.(*Terminal).sortSelected", "fzf.(*Pattern).MatchItem",
                "fzf.Tokenize", "util.(*Chars).TrimTrailingWhitespaces"],
-    outside=["--print0 framing in main.go's printer", "exit codes produced by the render loop", "interactive accept paths (Terminal.output)", "--ansi colour processing inside the builders",
+    outside=["--print0 framing in main.go's printer", "exit codes produced by the render loop", "--ansi colour processing inside the builders",
              "Run's own wiring (goroutines, event box)"],
     models=["util.EventBox.Set executed as real code over no-op sync primitives", "--with-nth transformer = harness function keeping field 2 (the real one is built from a regex template)"],
     assumptions=["records over {a,b,space,tab}; query 'a'"],
@@ -22,4 +22,5 @@ def suites(tier):
     for wn, field in ((0, 1), (1, 1), (1, 2)):
         cfg = dict(withnth=wn, field=field, records=3, nmax=2 if q else 3, headers=2)
         jobs.append(dict(id=jid("build", cfg), func="zzH_C06_build", cfg=cfg))
+    jobs.append(dict(id="output", func="zzH_C07_output", cfg={}))
     return [src_suite("src", jobs)]
